@@ -59,15 +59,19 @@ class ViewSystem(object):
     def ops(self, obj):
         return [['read', 'ctrlpts'], ['read', 'weights'], ['read', 'ctrlptsw'],
                 ['ctrlpts', 0], ['ctrlpts', 1], ['weights', 0], ['weights', 1],
-                ['ctrlptsw', 0], ['ctrlptsw', 1], ['set_ctrlpts', 0]]
+                ['ctrlptsw', 0], ['ctrlptsw', 1], ['set_ctrlpts', 0],
+                # data variety: all weights equal (not 1), weights < 0.1 and > 100, negative fractional points
+                ['weights', 2], ['weights', 3], ['ctrlpts', 2]]
 
     def value(self, op):
         k, i = op
         if k == 'ctrlpts':
+            if i == 2:
+                return A.make_net(self.sizes, 3, 'negfrac')
             pts = A.make_net(self.sizes, 3, 'coded' if i == 0 else 'seeded', 7 + self.seed)
             return [[c + (0.5 if i == 0 else 0.0) for c in p] for p in pts]
         if k == 'weights':
-            return A.make_weights(self.sizes, 'spike' if i == 0 else 'seeded', 3 + self.seed)
+            return A.make_weights(self.sizes, ['spike', 'seeded', 'equal5', 'extreme'][i], 3 + self.seed)
         pts = A.make_net(self.sizes, 3, 'seeded', 21 + i + self.seed)
         w = A.make_weights(self.sizes, 'coded' if i == 0 else 'seeded', 9 + self.seed)
         return [[c * wi for c in p] + [wi] for p, wi in zip(pts, w)]
@@ -165,6 +169,11 @@ def gen_cases(tier, seed):
             for wk in ('ones', 'coded', 'spike', 'seeded'):
                 for net in ('coded', 'seeded'):
                     cases.append(dict(mode='helpers', sizes=sizes, dim=dim, weights=wk, net=net))
+            for wk in A.VARIETY_WEIGHTS:
+                for net in ('coded', 'negfrac', 'large', 'tiny', 'coincident'):
+                    cases.append(dict(mode='helpers', sizes=sizes, dim=dim, weights=wk, net=net))
+            for net in ('negfrac', 'large', 'tiny', 'zeroplane', 'coincident'):
+                cases.append(dict(mode='helpers', sizes=sizes, dim=dim, weights='coded', net=net))
     # weighted grid
     dmax = 4 if q else 5
     for nu, nv in itertools.product(range(1, dmax + 1), repeat=2):
@@ -186,6 +195,16 @@ def gen_cases(tier, seed):
     for d in K.tall_curve_shapes(tier)[1::2][::3] + K.tall_surface_shapes(tier)[1::4] + [h for h in K.huge_shapes(tier) if h['rational']]:
         cases.append(dict(mode='scale_weights', shape=dict(d, rational=True, weights='coded')))
         cases.append(dict(mode='convert_rational', shape=dict(d, rational=True, weights='le1')))
+    # data variety on shapes: unit and equal weights scaled, extreme weights, unusual coordinates, dimensions, input types
+    for d in K.variety_shapes(tier):
+        if d['rational']:
+            cases.append(dict(mode='scale_weights', shape=d))
+            cases.append(dict(mode='convert_rational', shape=dict(d, weights='le1')))
+        else:
+            cases.append(dict(mode='convert', shape=d))
+    for pdk, (kvs, degs) in enumerate((([A.clamped_kv(2, [(0.5, 1)])], [2]), ([A.clamped_kv(1, []), A.clamped_kv(2, [(0.5, 1)])], [1, 2]))):
+        for wk in ('ones', 'equal5'):
+            cases.append(dict(mode='scale_weights', shape=A.shape_desc(kvs, degs, True, 3, 'coded', wk)))
     # conversion + weight scaling on shapes
     degs1 = [1, 2, 3]
     for p in degs1:
@@ -335,6 +354,17 @@ def _params(desc, kvs):
     return list(itertools.product(*sets))
 
 
+def _mapped(fp, m_from, m_to):
+    """the parameter of m_to that corresponds to fp of m_from under the affine map between their domains (conversions
+    build a new object, which normalises its knot vectors unless told otherwise)"""
+    out = []
+    for u, kf, kt, p in zip(fp, m_from['kvs'], m_to['kvs'], m_from['degrees']):
+        lo, hi = kf[p], kf[-(p + 1)]
+        lo2, hi2 = kt[p], kt[-(p + 1)]
+        out.append(u if (lo, hi) == (lo2, hi2) else lo2 + (u - lo) * (hi2 - lo2) / (hi - lo))
+    return out
+
+
 def _convert(case, ctx):
     from geomdl import convert
     desc = case['shape']
@@ -350,14 +380,19 @@ def _convert(case, ctx):
     back = convert.nurbs_to_bspline(nur)
     ctx.check('C09.convert.to_bspline.nonrational', back.rational is False, case, feats)
     m3 = R.def_from_obj(back)
-    for prm in _params(desc, desc['kvs']):
+    for prm in _params(desc, [[float(k) for k in kv] for kv in model['kvs']]):
         fp = [F(x) for x in prm]
         e = R.eval_point(model, fp)
-        ctx.close('C09.convert.to_nurbs.same_points', R.eval_point(m2, fp), e, 0.0, scale, dict(case, params=list(prm)), feats)
-        ctx.close('C09.convert.to_bspline.same_points', R.eval_point(m3, fp), e, 0.0, scale, dict(case, params=list(prm)), feats)
-        arg = prm[0] if desc['pdim'] == 1 else list(prm)
-        ctx.close('C09.convert.to_nurbs.library_eval', nur.evaluate_single(arg), e, 1e-9, scale, dict(case, params=list(prm)), feats)
-        ctx.close('C09.convert.to_bspline.library_eval', back.evaluate_single(arg), e, 1e-9, scale, dict(case, params=list(prm)), feats)
+        same_dom = _mapped(fp, model, m2) == fp and _mapped(fp, model, m3) == fp
+        tol0 = 0.0 if same_dom else 1e-12
+        ctx.close('C09.convert.to_nurbs.same_points', R.eval_point(m2, _mapped(fp, model, m2)), e, tol0, scale, dict(case, params=list(prm)), feats)
+        ctx.close('C09.convert.to_bspline.same_points', R.eval_point(m3, _mapped(fp, model, m3)), e, tol0, scale, dict(case, params=list(prm)), feats)
+        a2 = [float(x) for x in _mapped(fp, model, m2)]
+        a3 = [float(x) for x in _mapped(fp, model, m3)]
+        ctx.close('C09.convert.to_nurbs.library_eval', nur.evaluate_single(a2[0] if desc['pdim'] == 1 else a2), e, 1e-9, scale,
+                  dict(case, params=list(prm)), feats)
+        ctx.close('C09.convert.to_bspline.library_eval', back.evaluate_single(a3[0] if desc['pdim'] == 1 else a3), e, 1e-9, scale,
+                  dict(case, params=list(prm)), feats)
     ctx.check('C09.convert.input_unchanged', S.snapshot(obj) == S.snapshot(S.build(desc, ctx.seed)), case, feats)
 
 
@@ -372,12 +407,14 @@ def _convert_rational(case, ctx):
     scale = S.max_abs(model)
     res = convert.nurbs_to_bspline(obj)
     m2 = R.def_from_obj(res)
-    for prm in _params(desc, desc['kvs']):
+    for prm in _params(desc, [[float(k) for k in kv] for kv in model['kvs']]):
         fp = [F(x) for x in prm]
         e = R.eval_point(model, fp)
-        ctx.close('C09.convert.rational_input.same_points', R.eval_point(m2, fp), e, 1e-12, scale, dict(case, params=list(prm)), feats)
-        arg = prm[0] if desc['pdim'] == 1 else list(prm)
-        ctx.close('C09.convert.rational_input.library_eval', res.evaluate_single(arg), e, 1e-9, scale, dict(case, params=list(prm)), feats)
+        ctx.close('C09.convert.rational_input.same_points', R.eval_point(m2, _mapped(fp, model, m2)), e, 1e-12, scale,
+                  dict(case, params=list(prm)), feats)
+        a2 = [float(x) for x in _mapped(fp, model, m2)]
+        ctx.close('C09.convert.rational_input.library_eval', res.evaluate_single(a2[0] if desc['pdim'] == 1 else a2), e, 1e-9, scale,
+                  dict(case, params=list(prm)), feats)
 
 
 def _scale_weights(case, ctx):
@@ -387,7 +424,8 @@ def _scale_weights(case, ctx):
     feats = dict(pdim=desc['pdim'], degrees=desc['degrees'], weights=desc['weights'])
     ctx.state(desc, nontrivial=True)
     scale = max(1.0, max(abs(c) for p in pts for c in p))
-    prms = _params(desc, desc['kvs'])
+    model = R.def_from_obj(obj)
+    prms = _params(desc, [[float(k) for k in kv] for kv in model['kvs']])
     ref = [obj.evaluate_single(p[0] if desc['pdim'] == 1 else list(p)) for p in prms]
     model = R.def_from_obj(obj)
     for c in (2.0, 0.5, 3.0):
